@@ -34,6 +34,18 @@ def _returns_in_loops_or_try(h):
         if isinstance(n, (ast.For, ast.While, ast.Try, ast.With)):
             if any(isinstance(x, ast.Return) for x in ast.walk(n)): return True
     return False
+def _is_search_loop(h):
+    """body = [docstring] simple statements, ONE for-loop (no else) whose returns are not inside a nested loop/try, then at most one final `return <expr>`"""
+    body = [b for b in h.body if not (isinstance(b, ast.Expr) and isinstance(b.value, ast.Constant))]
+    loops = [b for b in body if isinstance(b, ast.For)]
+    if len(loops) != 1 or loops[0].orelse: return False
+    i = body.index(loops[0])
+    if any(isinstance(x, ast.Return) for b in body[:i] for x in ast.walk(b)): return False
+    rest = body[i + 1:]
+    if len(rest) > 1 or (rest and not isinstance(rest[0], ast.Return)): return False
+    for x in ast.walk(loops[0]):
+        if x is not loops[0] and isinstance(x, (ast.For, ast.While, ast.Try, ast.With)) and any(isinstance(y, ast.Return) for y in ast.walk(x)): return False
+    return True
 def _structured(body, conv):
     """rewrite `return v` by conv(v) (a list of statements) and move the statements following a return-terminated `if`
     into its else branch, so that no statement is executed after what used to be a return"""
@@ -149,13 +161,16 @@ def _expand_stmt(st, helpers, caller, caller_names, depth):
     """list of statements replacing st (st itself if nothing applies)"""
     call = None; form = None
     if isinstance(st, ast.Expr) and isinstance(st.value, ast.Call): call, form = st.value, "proc"
-    elif isinstance(st, ast.Assign) and len(st.targets) == 1 and isinstance(st.value, ast.Call) and isinstance(st.targets[0], (ast.Name, ast.Attribute)): call, form = st.value, "assign"
+    elif isinstance(st, ast.Assign) and len(st.targets) == 1 and isinstance(st.value, ast.Call) and isinstance(st.targets[0], (ast.Name, ast.Attribute, ast.Tuple)): call, form = st.value, "assign"
     elif isinstance(st, ast.Return) and isinstance(st.value, ast.Call): call, form = st.value, "return"
     elif isinstance(st, ast.Raise) and isinstance(st.exc, ast.Call) and st.cause is None: call, form = st.exc, "raise"
     if call is None: return [st]
     h, is_m = helpers.lookup(call)
     if h is None or not _eligible(h, caller): return [st]
-    if _returns_in_loops_or_try(h) and form != "return": return [st]
+    loop_form = False
+    if _returns_in_loops_or_try(h) and form != "return":
+        if form == "assign" and _is_search_loop(h): loop_form = True
+        else: return [st]
     vr, br = _value_returns(h), _bare_returns(h)
     if form == "proc" and (vr or (br and not (len(br) == 1 and br[0] is h.body[-1]))):
         if vr: return [st]
@@ -165,7 +180,18 @@ def _expand_stmt(st, helpers, caller, caller_names, depth):
     prefix, sub = b
     body = [_clone_stmt(x) for x in h.body if not (isinstance(x, ast.Expr) and isinstance(x.value, ast.Constant) and isinstance(x.value.value, str))]
     body = [_Subst(sub).visit(x) for x in body]
-    if form == "return": new = body
+    if loop_form:
+        T = st.targets[0]
+        body2 = [b for b in body]
+        final = body2[-1].value if isinstance(body2[-1], ast.Return) else ast.Constant(value=None)
+        loop = next(b for b in body2 if isinstance(b, ast.For))
+        class RB(ast.NodeTransformer):
+            def visit_Return(self, n): return [ast.Assign(targets=[_retarget(T)], value=n.value if n.value is not None else ast.Constant(value=None)), ast.Break()]
+            def visit_FunctionDef(self, n): return n
+        loop = RB().visit(loop)
+        pre = [b for b in body2[:body2.index(next(b for b in body2 if isinstance(b, ast.For)))]]
+        new = pre + [ast.Assign(targets=[_retarget(T)], value=final), loop]
+    elif form == "return": new = body
     else:
         if form == "proc": conv = lambda v: []
         elif form == "assign": conv = lambda v, T=st.targets[0]: [ast.Assign(targets=[_retarget(T)], value=v)]
@@ -186,8 +212,62 @@ def _walk_block(stmts, helpers, caller, caller_names, depth):
     out = []
     for st in stmts: out += _walk_stmt(st, helpers, caller, caller_names, depth)
     return out
+def _hoist_test(st, helpers, caller, caller_names, depth):
+    """`if h(x): ...` / `if not h(x): ...` / `if A and h(x): ...` (no else) where h is an inlinable value helper:
+    bind the helper's result to a fresh local by the assign form, then test the local"""
+    t = st.test
+    def is_helper_call(e):
+        if not isinstance(e, ast.Call): return False
+        h, _ = helpers.lookup(e)
+        return h is not None and _eligible(h, caller) and _value_returns(h) and not _bare_returns(h) and not _returns_in_loops_or_try(h)
+    neg = False; core = t
+    if isinstance(core, ast.UnaryOp) and isinstance(core.op, ast.Not): neg = True; core = core.operand
+    k = next(_counter); tmp = "cond_inl%d" % k
+    def bind(call):
+        asg = ast.Assign(targets=[ast.Name(id=tmp, ctx=ast.Store())], value=call); ast.copy_location(asg, st); ast.fix_missing_locations(asg)
+        return _expand_stmt(asg, helpers, caller, caller_names, 1)
+    if is_helper_call(core):
+        pre = bind(core)
+        if len(pre) == 1 and isinstance(pre[0], ast.Assign) and pre[0].value is core: return None
+        newtest = ast.Name(id=tmp, ctx=ast.Load())
+        st.test = ast.UnaryOp(op=ast.Not(), operand=newtest) if neg else newtest
+        return pre + [st]
+    if isinstance(t, ast.BoolOp) and isinstance(t.op, ast.And) and not st.orelse and is_helper_call(t.values[-1]):
+        pre = bind(t.values[-1])
+        if len(pre) == 1 and isinstance(pre[0], ast.Assign) and pre[0].value is t.values[-1]: return None
+        inner = ast.If(test=ast.Name(id=tmp, ctx=ast.Load()), body=st.body, orelse=[])
+        rest = t.values[:-1]
+        outer = ast.If(test=rest[0] if len(rest) == 1 else ast.BoolOp(op=ast.And(), values=rest), body=pre + [inner], orelse=[])
+        ast.copy_location(inner, st); ast.copy_location(outer, st)
+        return [outer]
+    return None
 def _walk_stmt(st, helpers, caller, caller_names, depth):
     if isinstance(st, (ast.FunctionDef, ast.ClassDef)): return [st]
+    if isinstance(st, ast.For) and isinstance(st.iter, ast.Call):
+        hh, _m = helpers.lookup(st.iter)
+        if hh is not None and _eligible(hh, caller) and _value_returns(hh) and not _bare_returns(hh):
+            k = next(_counter); tmp = "iter_inl%d" % k
+            asg = ast.Assign(targets=[ast.Name(id=tmp, ctx=ast.Store())], value=st.iter); ast.copy_location(asg, st); ast.fix_missing_locations(asg)
+            pre = _expand_stmt(asg, helpers, caller, caller_names, 1)
+            if not (len(pre) == 1 and pre[0] is asg):
+                st.iter = ast.Name(id=tmp, ctx=ast.Load()); ast.copy_location(st.iter, st)
+                for field in ("body", "orelse"):
+                    v = getattr(st, field, None)
+                    if isinstance(v, list) and v: setattr(st, field, _walk_block(v, helpers, caller, caller_names, depth))
+                return pre + [st]
+    if isinstance(st, ast.If):
+        h = _hoist_test(st, helpers, caller, caller_names, depth)
+        if h is not None:
+            out = []
+            for x in h:
+                if x is st or isinstance(x, ast.If):
+                    for field in ("body", "orelse"):
+                        v = getattr(x, field, None)
+                        if isinstance(v, list) and v: setattr(x, field, _walk_block(v, helpers, caller, caller_names, depth))
+                out.append(x)
+            for x in out:
+                ast.fix_missing_locations(x)
+            return out
     for field in ("body", "orelse", "finalbody"):
         v = getattr(st, field, None)
         if isinstance(v, list) and v and isinstance(v[0], ast.stmt): setattr(st, field, _walk_block(v, helpers, caller, caller_names, depth))
